@@ -308,7 +308,7 @@ def run_coq_cases(prop, cases, timeout=1200, header=CASE_HEADER):
 
 def parse_outcome(text):
     """-> ('ok', {path: Fraction}) | ('err', kind) | ('?', text)"""
-    m = re.search(r'OutErr\s+"([A-Za-z:]+)"', text)
+    m = re.search(r'OutErr\s+"([A-Za-z:0-9]+)"', text)
     if m:
         return ("err", m.group(1))
     if "OutOk" in text:
